@@ -151,6 +151,22 @@ func monitor(c schedCase, r *result, stopped bool) []string {
 		}
 		return v
 	}
+	// ---- a step reported finished has executed its command successfully (C04's outcome and C05's "a stop never turns
+	//      an unexecuted step into a finished one" rest on it), in stopped runs too; fresh runs, non-repeating steps
+	if len(c.Init) == 0 && !c.Dry {
+		lastOK := map[int]bool{}
+		for _, e := range r.Events {
+			if e.Node < 1000 && e.Kind == "end" {
+				lastOK[e.Node] = e.OK
+			}
+		}
+		for i := 0; i < n; i++ {
+			if final.St[i] == "finished" && !c.Nodes[i].Rep && !lastOK[i] {
+				add("C04:step-reported-finished-without-a-successful-execution:node=%d starts=%d", i, starts[i])
+				add("C05:step-reported-finished-without-a-successful-execution:node=%d starts=%d", i, starts[i])
+			}
+		}
+	}
 	allSucc := true
 	anyFailed := false
 	for i := 0; i < n; i++ {
@@ -190,6 +206,23 @@ func monitor(c schedCase, r *result, stopped bool) []string {
 				if nc.Pre == 2 || (nc.Pre == 3 && nc.PreVal == 2) {
 					if st != "skipped" || starts[i] != 0 {
 						add("C02:unmet-precondition-not-skipped:node=%d status=%s starts=%d", i, st, starts[i])
+					}
+					continue
+				}
+				if nc.Pre == 3 && nc.PreVal == 3 {
+					// met once, unmet ever after: one execution at most; a failed first attempt that is handed back
+					// for a retry finds the precondition unmet and is skipped
+					w := "finished"
+					if nc.Fails != 0 {
+						w = "failed"
+						if nc.Limit > 0 {
+							w = "skipped"
+						}
+					}
+					if starts[i] > 1 {
+						add("C02:step-executed-although-its-precondition-was-unmet-when-it-was-due:node=%d starts=%d", i, starts[i])
+					} else if st != w {
+						add("C02:state-does-not-match-outcome:node=%d status=%s want=%s (precondition met once, then unmet)", i, st, w)
 					}
 					continue
 				}
